@@ -242,13 +242,17 @@ pub struct TypedGen<'a, 'b, 's> {
     pub mutate_at: Option<usize>,
     /// Label of the defect that was planted (None = the payload is valid by construction).
     pub mutation: Option<&'static str>,
+    /// Probability (num, den) of using an alternative wire kind where a type admits several
+    /// (manifest blob for a byte array, expression for an array of owned nodes, bucket / proof /
+    /// address reservation for an owned node).
+    pub alt_kind_chance: (u64, u64),
     counter: usize,
     min_depth: HashMap<LocalTypeId, usize>,
 }
 
 impl<'a, 'b, 's> TypedGen<'a, 'b, 's> {
     pub fn new(g: &'a mut Gen<'b>, view: &'s dyn SchemaView, fl: Flavour) -> Self {
-        TypedGen { g, view, fl, budget: 120, max_len: 3, mutate_at: None, mutation: None, counter: 0, min_depth: HashMap::new() }
+        TypedGen { g, view, fl, budget: 120, max_len: 3, mutate_at: None, mutation: None, alt_kind_chance: (1, 8), counter: 0, min_depth: HashMap::new() }
     }
 
     pub fn nodes_generated(&self) -> usize {
@@ -411,6 +415,20 @@ impl<'a, 'b, 's> TypedGen<'a, 'b, 's> {
         self.gen(root, depth_limit, true)
     }
 
+    /// First listed kind mostly, another one with probability `alt_kind_chance`.
+    fn pick_alt(&mut self, kinds: &[u8]) -> u8 {
+        let is_own_family = kinds[0] == MK_BUCKET;
+        if kinds.len() > 1 && (is_own_family || self.g.chance(self.alt_kind_chance.0, self.alt_kind_chance.1)) {
+            if is_own_family {
+                kinds[self.g.index(kinds.len())]
+            } else {
+                kinds[1 + self.g.index(kinds.len() - 1)]
+            }
+        } else {
+            kinds[0]
+        }
+    }
+
     fn pick_len(&mut self, id: LocalTypeId, child_possible: bool) -> Option<usize> {
         let (min, max) = match self.view.validation(id) {
             Some(TV::Len { min, max }) => (min, max),
@@ -445,7 +463,7 @@ impl<'a, 'b, 's> TypedGen<'a, 'b, 's> {
             let v = vg.value(1);
             v.kind()
         } else {
-            kinds[self.g.index(kinds.len())]
+            self.pick_alt(&kinds)
         };
         self.gen_with_kind(id, k, depth_left, explicit_kind)
     }
@@ -612,7 +630,7 @@ impl<'a, 'b, 's> TypedGen<'a, 'b, 's> {
                     let mut b = vec![0u8];
                     b.extend(self.node_id_with(Some(&bad)));
                     b
-                } else if self.g.chance(1, 4) {
+                } else if self.g.chance(self.alt_kind_chance.0, self.alt_kind_chance.1) {
                     // a named address can stand for any reference
                     let mut b = vec![1u8];
                     b.extend_from_slice(&(interesting_u64(self.g) as u32).to_le_bytes());
@@ -814,7 +832,7 @@ impl<'a, 'b, 's> TypedGen<'a, 'b, 's> {
                     let mut vg = ValGen::new(self.g, self.fl, 0);
                     vg.value(1).kind()
                 } else {
-                    ekinds[self.g.index(ekinds.len())]
+                    self.pick_alt(&ekinds)
                 };
                 if ek == K_U8 {
                     let eval = self.view.validation(e).unwrap_or(TV::None);
@@ -871,7 +889,7 @@ impl<'a, 'b, 's> TypedGen<'a, 'b, 's> {
                         let mut vg = ValGen::new(s.g, s.fl, 0);
                         vg.value(1).kind()
                     } else {
-                        ks[s.g.index(ks.len())]
+                        s.pick_alt(&ks)
                     })
                 };
                 let kk = pick(self, kt)?;
